@@ -7,7 +7,8 @@ from cpu_common import *
 def main(tier):
     ck = cpu_check('C02', tier)
     ck.stubs_used.append('memory.Mapper -> flat 64 KiB array with access log (stubs/flatmapper)')
-    jobs = [('cpu', 'VerifInstr', {'op': o, 'cb': 0}) for o in BASE_OPS] + [('cpu', 'VerifInstr', {'op': o, 'cb': 1}) for o in range(256)]
+    jobs = [('cpu', 'VerifInstr', {'op': o, 'cb': 0}) for o in BASE_OPS] + [('cpu', 'VerifInstr', {'op': o, 'cb': 1}) for o in range(256)] + \
+        [('cpu', 'VerifInstrAfter', {'op': o, 'cb': 0}) for o in BASE_OPS] + [('cpu', 'VerifInstrAfter', {'op': o, 'cb': 1}) for o in range(256)]
     ck.bounds = {'configurations': '245 defined base opcodes + 256 CB opcodes',
                  'values': 'all 16 flag nibbles and every register/memory value symbolic, so both outcomes of every condition code are inside each query',
                  'unwind': '7 machine cycles', 'outside': 'whole-ROM timing (instr_timing.gb); interrupt dispatch length is C04, HALT wake-up C05'}
